@@ -417,6 +417,12 @@ class SymFloat:
         return self._bin(o, lambda a, b: z3.fpSub(RNE, a, b), lambda a, b: a - b, True)
 
     def __mul__(self, o):
+        if isinstance(o, SymFloat) and not self.ieee and not o.ieee:
+            from . import floatmodel
+            if o.term.eq(self.term):
+                return SymFloat(floatmodel.rnd(floatmodel.sq(self.term)))
+            if not (z3.is_rational_value(z3.simplify(o.term)) or z3.is_rational_value(z3.simplify(self.term))):
+                raise E.Unsupported('product of two different symbolic floats (non-linear) in the reals-with-rounding model')
         return self._bin(o, lambda a, b: z3.fpMul(RNE, a, b), lambda a, b: a * b)
 
     def __rmul__(self, o):
